@@ -18,13 +18,15 @@ def layout(rng, idx):
     """One crate layout: returns (manifest_dir, file_string, true_path, decoys)."""
     root = os.path.join(fsroot(), "l%d" % idx)
     ws = [rng.choice(NAMES) for _ in range(rng.randint(0, 2))]
-    kind = rng.choice(["single", "flat", "nested", "nested", "outside_rel", "outside_abs"])
+    kind = rng.choice(["single", "flat", "nested", "nested", "outside_rel", "outside_abs", "shared_up"])
     if kind == "single":
         member = []
     elif kind == "flat":
         member = [rng.choice(NAMES)]
     elif kind == "nested":
         member = [rng.choice(NAMES) for _ in range(rng.randint(2, 3))]
+    elif kind == "shared_up":
+        member = [rng.choice(NAMES) for _ in range(rng.randint(1, 3))]
     else:
         member = []
     srcdirs = [rng.choice(NAMES[:6]) for _ in range(rng.randint(1, 2))]
@@ -33,6 +35,12 @@ def layout(rng, idx):
         tail = (ws + member)[-rng.randint(1, min(2, len(ws + member))):]
         srcdirs = tail + srcdirs[:1]
     src = srcdirs + [rng.choice(FILES)]
+    if kind == "shared_up":
+        # a module pulled in with #[path = "../../shared/helpers.rs"] / include!: rustc keeps the `..` segments in file!()
+        # verbatim (member/src/../../shared/helpers.rs); they climb out of the source directory, possibly above the package
+        # root, possibly above the workspace member's first directory
+        up = rng.randint(1, len(srcdirs) + len(member))
+        src = srcdirs + [".."] * up + [rng.choice(["shared", "common", "test-util"]), rng.choice(FILES)]
     wsdir = os.path.join(root, *ws) if ws else root
     manifest = os.path.join(wsdir, *member) if member else wsdir
     true_path = os.path.join(wsdir, *(member + src))
